@@ -387,4 +387,152 @@ theorem mapGroup_passes (inner : σ → List Item → Step σ Item) : Passes (ma
       simp only [hg, Option.isSome_some, Bool.true_and] at h
       simp [hg, h]
 
+/-! ### the law for each element's `run` -/
+
+/-- `ToCSV.run(interleave(A, B)) = interleave(ToCSV.run(A), B)` -/
+theorem toCSV_interleave (p : List Bool) (A B : List Item) (s : σ) (hpat : IsPattern p A B)
+    (hB : ∀ b ∈ B, toCSVSel b = false) :
+    toCSVRun s (merge p A B) =
+      ⟨mergeBlocks (toCSVRun s A).err.isSome p (toCSVRun s A).blocks B, (toCSVRun s A).st, (toCSVRun s A).err⟩ :=
+  interleave_law _ _ toCSV_passes p A B s hpat hB
+
+/-- `Write.run`, for every construction setting and every initial file system -/
+theorem write_interleave (cfg : WriteCfg) (p : List Bool) (A B : List Item) (fs : FS) (hpat : IsPattern p A B)
+    (hB : ∀ b ∈ B, writeSel b = false) :
+    writeRun cfg fs (merge p A B) =
+      ⟨mergeBlocks (writeRun cfg fs A).err.isSome p (writeRun cfg fs A).blocks B, (writeRun cfg fs A).st,
+        (writeRun cfg fs A).err⟩ :=
+  interleave_law _ _ (write_passes cfg) p A B fs hpat hB
+
+theorem render_interleave (cfg : RenderCfg) (p : List Bool) (A B : List Item) (s : σ) (hpat : IsPattern p A B)
+    (hB : ∀ b ∈ B, renderSel cfg b = false) :
+    renderRun cfg s (merge p A B) =
+      ⟨mergeBlocks (renderRun cfg s A).err.isSome p (renderRun cfg s A).blocks B, (renderRun cfg s A).st,
+        (renderRun cfg s A).err⟩ :=
+  interleave_law _ _ (render_passes cfg) p A B s hpat hB
+
+theorem png_interleave (cfg : PngCfg) (p : List Bool) (A B : List Item) (fs : FS) (hpat : IsPattern p A B)
+    (hB : ∀ b ∈ B, pngSel b = false) :
+    pngRun cfg fs (merge p A B) =
+      ⟨mergeBlocks (pngRun cfg fs A).err.isSome p (pngRun cfg fs A).blocks B, (pngRun cfg fs A).st,
+        (pngRun cfg fs A).err⟩ :=
+  interleave_law _ _ (png_passes cfg) p A B fs hpat hB
+
+theorem histToGraph_interleave (p : List Bool) (A B : List Item) (s : σ) (hpat : IsPattern p A B)
+    (hB : ∀ b ∈ B, histToGraphSel b = false) :
+    histToGraphRun s (merge p A B) =
+      ⟨mergeBlocks (histToGraphRun s A).err.isSome p (histToGraphRun s A).blocks B, (histToGraphRun s A).st,
+        (histToGraphRun s A).err⟩ :=
+  interleave_law _ _ histToGraph_passes p A B s hpat hB
+
+theorem iterateBins_interleave (sb : BinKind → Bool) (p : List Bool) (A B : List Item) (s : σ)
+    (hpat : IsPattern p A B) (hB : ∀ b ∈ B, iterateBinsSel sb b = false) :
+    iterateBinsRun sb s (merge p A B) =
+      ⟨mergeBlocks (iterateBinsRun sb s A).err.isSome p (iterateBinsRun sb s A).blocks B,
+        (iterateBinsRun sb s A).st, (iterateBinsRun sb s A).err⟩ :=
+  interleave_law _ _ (iterateBins_passes sb) p A B s hpat hB
+
+theorem mapBins_interleave (sb : BinKind → Bool) (inner : Item → CellRes) (p : List Bool) (A B : List Item)
+    (s : σ) (hpat : IsPattern p A B) (hB : ∀ b ∈ B, mapBinsSel sb b = false) :
+    mapBinsRun sb inner s (merge p A B) =
+      ⟨mergeBlocks (mapBinsRun sb inner s A).err.isSome p (mapBinsRun sb inner s A).blocks B,
+        (mapBinsRun sb inner s A).st, (mapBinsRun sb inner s A).err⟩ :=
+  interleave_law _ _ (mapBins_passes sb inner) p A B s hpat hB
+
+/-- `RunIf.run`, for every selector and every inner sequence (stateful ones included: `σ` is any state the
+inner sequence and the file system may have) -/
+theorem runIf_interleave (select : Item → Bool) (inner : σ → List Item → Step σ Item) (p : List Bool)
+    (A B : List Item) (s : σ) (hpat : IsPattern p A B) (hB : ∀ b ∈ B, select b = false) :
+    runIfRun select inner s (merge p A B) =
+      ⟨mergeBlocks (runIfRun select inner s A).err.isSome p (runIfRun select inner s A).blocks B,
+        (runIfRun select inner s A).st, (runIfRun select inner s A).err⟩ :=
+  interleave_law _ _ (runIf_passes select inner) p A B s hpat hB
+
+theorem mapGroup_interleave (inner : σ → List Item → Step σ Item) (p : List Bool) (A B : List Item) (s : σ)
+    (hpat : IsPattern p A B) (hB : ∀ b ∈ B, mapGroupSel b = false) :
+    mapGroupRun inner s (merge p A B) =
+      ⟨mergeBlocks (mapGroupRun inner s A).err.isSome p (mapGroupRun inner s A).blocks B,
+        (mapGroupRun inner s A).st, (mapGroupRun inner s A).err⟩ :=
+  interleave_law _ _ (mapGroup_passes inner) p A B s hpat hB
+
+/-! ## 3. Element-specific facts -/
+
+/-- a loop whose body never changes the state leaves it as it was -/
+theorem loop_state_const {β : Type} (f : σ → α → Step σ β) (h : ∀ s v, (f s v).st = s) :
+    ∀ (xs : List α) (s : σ), (loop f s xs).st = s
+  | [], s => rfl
+  | v :: vs, s => by
+    have hv := h s v
+    rcases hf : f s v with ⟨out, s', _ | e⟩
+    · rw [hf] at hv; simp only at hv; subst hv
+      simp only [loop, hf]
+      exact loop_state_const f h vs s'
+    · rw [hf] at hv; simp only at hv; subst hv
+      simp [loop, hf]
+
+/-- `ToCSV` never touches the file system (or any other state), whatever the flow -/
+theorem toCSV_state_untouched (xs : List Item) (s : σ) : (toCSVRun s xs).st = s := by
+  apply loop_state_const
+  intro s v
+  simp only [toCSVStep]
+  repeat' split
+  all_goals rfl
+
+theorem render_state_untouched (cfg : RenderCfg) (xs : List Item) (s : σ) : (renderRun cfg s xs).st = s := by
+  apply loop_state_const
+  intro s v
+  simp only [renderStep]
+  repeat' split
+  all_goals rfl
+
+theorem histToGraph_state_untouched (xs : List Item) (s : σ) : (histToGraphRun s xs).st = s := by
+  apply loop_state_const
+  intro s v
+  simp only [histToGraphStep]
+  repeat' split
+  all_goals rfl
+
+theorem iterateBins_state_untouched (sb : BinKind → Bool) (xs : List Item) (s : σ) :
+    (iterateBinsRun sb s xs).st = s := by
+  apply loop_state_const
+  intro s v
+  simp only [iterateBinsStep]
+  repeat' split
+  all_goals rfl
+
+theorem mapBinsRounds_st (v : Item) (h : HistD) (d : Dict) (res : List CellRes) (s : σ) :
+    ∀ (fuel k : Nat) (acc : List Item), (mapBinsRounds v h d res s fuel k acc).st = s
+  | 0, _, _ => rfl
+  | fuel + 1, k, acc => by
+    unfold mapBinsRounds
+    split
+    · rfl
+    · rfl
+    · exact mapBinsRounds_st v h d res s fuel (k + 1) _
+
+theorem mapBins_state_untouched (sb : BinKind → Bool) (inner : Item → CellRes) (xs : List Item) (s : σ) :
+    (mapBinsRun sb inner s xs).st = s := by
+  apply loop_state_const
+  intro s v
+  unfold mapBinsStep
+  split
+  · split
+    · rfl
+    · exact mapBinsRounds_st _ _ _ _ _ _ _ _
+  · rfl
+
+/-- `Write`: a value whose data is already the path it would be written to ("already written by another
+Write") is yielded as the same object and the file system is not touched -/
+theorem write_already_written (cfg : WriteCfg) (fs : FS) (v : Item) (c : Ctx) (outputc : Dict)
+    (filename : String) (fileext : CV) (filepath : String)
+    (hc : v.ctx = some c) (hw : isWritable v.data c.d = true) (ho : lookup c.d "output" = some (.dict outputc))
+    (hm : makeFilename cfg outputc = .ok (filename, fileext, filepath)) (hd : v.data.eqStr filepath = true) :
+    writeStep cfg fs v = ⟨[v], fs, none⟩ := by
+  have hk : hasKey c.d "output" = true := by simp [hasKey, ho]
+  have hv : v.withDict c.d = v := by
+    unfold Item.withDict; simp only [hc]
+    cases v; simp_all
+  unfold writeStep
+  simp [Item.ctxOr, hc, hw, hk, ho, hm, hd, hv]
+
 end Lena.C10
